@@ -53,7 +53,7 @@ class EngineCheck:
         arg = dict(zip(self.argnames, cfg[1:-1]))
         arg["tier"] = tier
         return driver.run_check(self.pid, tier, seed, E, arg, n, wall, self.level, self.rule, self.assumptions,
-                                self.components, per_task_s=self.per_task_s, chunk=self.chunk,
+                                self.components, per_task_s=self.per_task_s * (5 if tier == "thorough" else 1), chunk=self.chunk,
                                 extra_cov=getattr(E, "extra_coverage", None))
 
     def replay(self, path: str, quiet: bool) -> int:
